@@ -2,7 +2,7 @@
    every nesting level) to the generated Python field names is accepted as well (populate_by_name). *)
 From Coq Require Import List String Ascii ZArith Bool Lia.
 From AC Require Import Base.Sexp Base.Json Base.Strs Gql.InSchema Gql.InCoerce
-  Model.Names Model.Defaults Model.Inputs Py.PyEval Proofs.InputsP Proofs.AcceptsP.
+  Model.Names Model.Defaults Model.Inputs Py.PyEval Proofs.InputsP Proofs.FreshP Proofs.AcceptsP.
 Import ListNotations.
 Local Open Scope string_scope.
 
@@ -40,13 +40,7 @@ Qed.
 Lemma names_unique snake fs : names_ok_fields snake fs = true ->
   forall f g, In f fs -> In g fs -> i_name f = i_name g -> f = g.
 Proof.
-  induction fs as [|h r IH]; simpl; intros H f g Hf Hg E; [contradiction|].
-  apply andb_true_iff in H as [H1 H2]. rewrite forallb_forall in H1.
-  destruct Hf as [<-|Hf], Hg as [<-|Hg]; auto.
-  - specialize (H1 g Hg). repeat (apply andb_true_iff in H1 as [H1 ?]).
-    rewrite E, String.eqb_refl in *. discriminate.
-  - specialize (H1 f Hf). repeat (apply andb_true_iff in H1 as [H1 ?]).
-    rewrite E, String.eqb_refl in *. discriminate.
+  intros N. apply (nodup_map_inj i_name fs (names_ok_nodup snake fs N)).
 Qed.
 
 Lemma find_field_some k fs g : find_field k fs = Some g -> In g fs /\ i_name g = k.
@@ -76,7 +70,7 @@ Variables (snake : bool) (fs : list ifdef) (ren : gtype -> json -> json).
 Hypothesis N : names_ok_fields snake fs = true.
 
 Lemma lookup_by_name kv f : known_keys fs kv = true -> In f fs ->
-  jlookup (py_name snake (i_name f)) (map (rename_entry ren snake fs) kv)
+  jlookup (fname snake fs (i_name f)) (map (rename_entry ren snake fs) kv)
   = option_map (ren (i_type f)) (jlookup (i_name f) kv).
 Proof.
   intros K Hf. induction kv as [|[k v] r IH]; [reflexivity|].
@@ -89,19 +83,19 @@ Proof.
     rewrite String.eqb_refl. reflexivity.
   - assert (i_name f <> i_name g) by (rewrite Eg; intro X; rewrite X, String.eqb_refl in E; discriminate).
     destruct (names_ok_pairs snake fs N f g Hf Hin H) as [H1 _].
-    destruct (py_name snake (i_name f) =? py_name snake (i_name g)) eqn:E2;
+    destruct (fname snake fs (i_name f) =? fname snake fs (i_name g)) eqn:E2;
       [apply String.eqb_eq in E2; contradiction | exact IH].
 Qed.
 
 Lemma lookup_by_alias_none kv f : known_keys fs kv = true -> In f fs ->
-  (py_name snake (i_name f) =? i_name f) = false ->
+  (fname snake fs (i_name f) =? i_name f) = false ->
   jlookup (i_name f) (map (rename_entry ren snake fs) kv) = None.
 Proof.
   intros K Hf A. induction kv as [|[k v] r IH]; [reflexivity|].
   simpl in K. apply andb_true_iff in K as [K1 K2]. specialize (IH K2).
   destruct (find_field_known k fs K1) as [g Hg]. destruct (find_field_some _ _ _ Hg) as [Hin Eg].
   simpl map. unfold rename_entry at 1. simpl fst. simpl snd. rewrite Hg. simpl jlookup.
-  destruct (i_name f =? py_name snake (i_name g)) eqn:E; [|exact IH]. exfalso.
+  destruct (i_name f =? fname snake fs (i_name g)) eqn:E; [|exact IH]. exfalso.
   apply String.eqb_eq in E.
   destruct (String.eqb_spec (i_name f) (i_name g)) as [X|X].
   - rewrite <- X in E. rewrite <- E, String.eqb_refl in A. discriminate.
@@ -112,11 +106,11 @@ End Fields.
 
 Lemma field_input_by_name s cs snake fs ren kv f : names_ok_fields snake fs = true -> known_keys fs kv = true ->
   In f fs ->
-  field_input (gen_field s cs snake f) (map (rename_entry ren snake fs) kv)
+  field_input (gen_field s cs snake fs f) (map (rename_entry ren snake fs) kv)
   = option_map (ren (i_type f)) (jlookup (i_name f) kv).
 Proof.
   intros N K Hf. unfold field_input. rewrite gen_field_alias, gen_field_name.
-  destruct (py_name snake (i_name f) =? i_name f) eqn:E.
+  destruct (fname snake fs (i_name f) =? i_name f) eqn:E.
   - apply lookup_by_name; assumption.
   - rewrite (lookup_by_alias_none snake fs ren N kv f K Hf E). apply lookup_by_name; assumption.
 Qed.
